@@ -84,6 +84,15 @@ def build_tree(ctx, rng, cid):
         ln = os.path.join(top, "link-%d.log" % cid)
         os.symlink(os.path.join(top, tgt), ln)
         files[os.path.relpath(ln, top)] = files[tgt]
+    # a link whose own name says something else than its target's (`latest -> k.log.gz`, `cur.gz -> a.log`): named explicitly
+    # it is read as its target is, so it must be when met in a walk
+    anylog = [rel for rel, v in files.items() if v[0] == "log" and not os.path.islink(os.path.join(top, rel))]
+    if anylog and rng.random() < 0.5:
+        tgt = rng.choice(anylog)
+        ln = os.path.join(top, rng.choice(["latest", "current.log", "cur.gz", "zz-last.xz", "newest.1"]))
+        if not os.path.lexists(ln):
+            os.symlink(os.path.join(top, tgt) if rng.random() < 0.5 else tgt, ln)
+            files[os.path.relpath(ln, top)] = files[tgt]
     if rng.random() < 0.4:
         out = os.path.join(root, "outside")
         os.makedirs(out)
